@@ -74,8 +74,14 @@ def run(ctx):
     for i in range(ctx.budget(400, 8000)):
         if ctx.out_of_time():
             break
-        case = gen_mol.cut_case(rng, nmax=12 if ctx.tier == 'quick' else 24, anno_p=rng.choice([0, 0, 0, 0.2]),
-                                pyrrole_p=0.15 if i % 3 == 0 else 0.0)
+        if i % 8 == 5:
+            # an aromatic ring written in Kekule form, no lower-case atom in the whole description
+            case = gen_mol.cut_case(rng, nmin=7, nmax=12, aromatic_p=1.0, kekule_p=1.0)
+            if case.get('kekule'):
+                ctx.feature('kekule-ring')
+        else:
+            case = gen_mol.cut_case(rng, nmax=12 if ctx.tier == 'quick' else 24, anno_p=rng.choice([0, 0, 0, 0.2]),
+                                    pyrrole_p=0.15 if i % 3 == 0 else 0.0)
         suites.run_resolve_case(ctx, 'mol-cut', case, oracle=oracle)
         ctx.feature('frags=%d' % case['nfrag'])
         if case.get('has_pyrrole'):
